@@ -243,6 +243,7 @@ pub fn peer_id(peer: u8) -> [u8; 33] {
     PublicKey::from_secret_key(&secp, &sk_from("peer", peer as u64, 0)).serialize()
 }
 
+#[derive(Clone)]
 pub struct Chan {
     pub id0: ChannelId,
     pub spec: ChanSpec,
